@@ -4,6 +4,7 @@ channels, `regex.match` versus `regex.search`, and the container types in the st
 -/
 import Jap.Core.AdaptRestr
 import Jap.Lemmas.AdaptStr
+import Jap.Lemmas.AdaptIdem
 namespace Jap.Adapt
 
 /-! ### `match` and `search` -/
@@ -216,5 +217,96 @@ theorem none_exact (O : Oracle) (orig : Option String) (v w : Val) :
   rw [adapt]
   simp only [adaptLeaf]
   cases h : loadIfStr O v <;> simp [eq_comm]
+
+/-! ### dictionary keys, exactly (finding C02-dict-key-unchecked) -/
+
+/-- `Dict[str, V]`: the keys of the given dictionary are handed through untouched, each value is adapted -/
+theorem dictStr_result (O : Oracle) (orig : Option String) (t : Ty) (kvs : List (DKey × Val)) (w : Val)
+    (h : adapt O false orig (.dict .str t) (.dict kvs) = .ok w) :
+    ∃ ys, w = .dict ys ∧
+      F2 (fun (kx ky : DKey × Val) => kx.1 = ky.1 ∧ adapt O false .none t kx.2 = .ok ky.2) kvs ys := by
+  simp only [adapt] at h
+  split at h
+  · simp at h
+  · rename_i ys hz
+    simp at h; subst h
+    refine ⟨ys, rfl, ((allM_ok_iff _ kvs ys).mp hz).imp ?_⟩
+    intro kx _ ky hky
+    cases ha : adapt O false .none t kx.2 with
+    | error e => simp [ha] at hky
+    | ok y => simp [ha] at hky; subst hky; exact ⟨rfl, rfl⟩
+
+theorem dictStr_keys (O : Oracle) (orig : Option String) (t : Ty) (kvs ys : List (DKey × Val))
+    (h : adapt O false orig (.dict .str t) (.dict kvs) = .ok (.dict ys)) : ys.map Prod.fst = kvs.map Prod.fst := by
+  obtain ⟨ys', he, hf⟩ := dictStr_result O orig t kvs _ h
+  cases he
+  exact hf.map_fst_eq (fun a b hab => hab.1)
+
+/-- the result of a `Dict[str, V]` conforms strictly exactly when every key of the given dictionary is a string
+    (values: under the hypotheses of `C02_sound_partial`) -/
+theorem dictStr_conf_iff (O : Oracle) (orig : Option String) (t : Ty) (kvs : List (DKey × Val)) (w : Val)
+    (hl : litStrOnly t = true) (hv : ∀ kv ∈ kvs, strKeys kv.2 = true)
+    (h : adapt O false orig (.dict .str t) (.dict kvs) = .ok w) :
+    conf O.rnumOk (.dict .str t) w = true ↔ ∀ kv ∈ kvs, kv.1.isStr = true := by
+  obtain ⟨ys, rfl, hf⟩ := dictStr_result O orig t kvs w h
+  have hval : ∀ ky ∈ ys, confL O.rnumOk false false t ky.2 = true :=
+    hf.forall_right (fun kx hkx ky hk => sound_gen O false false t .none kx.2 ky.2 (fun _ => hl) (fun _ => hv kx hkx) hk.2)
+  have hkeys := hf.map_fst_eq (fun a b hab => hab.1)
+  have hconf : ∀ k : DKey, DKey.conf .str k = k.isStr := by intro k; cases k <;> rfl
+  simp only [conf, confL, Bool.false_or, List.all_eq_true, Bool.and_eq_true, hconf]
+  constructor
+  · intro hall kv hkv
+    have : kv.1 ∈ ys.map Prod.fst := by rw [hkeys]; exact List.mem_map_of_mem hkv
+    obtain ⟨ky, hky, he⟩ := List.mem_map.mp this
+    rw [← he]; exact (hall ky hky).1
+  · intro hall ky hky
+    have : ky.1 ∈ kvs.map Prod.fst := by rw [← hkeys]; exact List.mem_map_of_mem hky
+    obtain ⟨kx, hkx, he⟩ := List.mem_map.mp this
+    exact ⟨by rw [← he]; exact hall kx hkx, hval ky hky⟩
+
+/-! ### Literal membership by `==`, exactly (finding C02-literal-pyeq) -/
+
+/-- `l == w` in Python although `w` is not the member `l` itself -/
+def Lit.confused (l : Lit) (w : Val) : Bool := pyEq l.toVal w && !l.same w
+
+/-- … which happens exactly between the kinds bool / int / float on the same number -/
+theorem Lit.confused_iff (l : Lit) (w : Val) :
+    l.confused w = true ↔
+      (match l, w with
+       | .int i, .bool b => i = (if b then 1 else 0)
+       | .int i, .flt r => fltAsInt r = some i
+       | .bool b, .int i => (if b then 1 else 0) = i
+       | .bool b, .flt r => fltAsInt r = some (if b then 1 else 0)
+       | _, _ => False) := by
+  cases l <;> cases w <;> simp [Lit.confused, Lit.toVal, pyEq, numOf, Lit.same]
+  · rename_i i r; cases fltAsInt r with
+    | none => simp
+    | some j => simp; exact eq_comm
+  · rename_i a b; cases a <;> cases b <;> simp
+  · rename_i b r; cases fltAsInt r with
+    | none => simp
+    | some j => simp; exact eq_comm
+
+theorem literal_result (O : Oracle) (orig : Option String) (ls : List Lit) (v w : Val)
+    (h : adapt O false orig (.literal ls) v = .ok w) :
+    conf O.rnumOk (.literal ls) w = true ∨ ∃ l ∈ ls, l.confused w = true := by
+  rw [adapt] at h
+  have hm := adaptLiteral_litMem O ls v w h
+  by_cases hc : conf O.rnumOk (.literal ls) w = true
+  · exact Or.inl hc
+  · right
+    simp only [litMem, List.any_eq_true] at hm
+    obtain ⟨l, hl, he⟩ := hm
+    refine ⟨l, hl, ?_⟩
+    simp only [conf, confL, Bool.false_eq_true, if_false, List.any_eq_true, not_exists, not_and] at hc
+    have := hc l hl
+    simp [Lit.confused, he, this]
+
+theorem literal_confused_accepted (O : Oracle) (orig : Option String) (ls : List Lit) (l : Lit) (w : Val)
+    (hl : l ∈ ls) (hc : l.confused w = true) : adapt O false orig (.literal ls) w = .ok w := by
+  rw [adapt]
+  simp only [Lit.confused, Bool.and_eq_true] at hc
+  have hm : litMem ls w = true := List.any_eq_true.mpr ⟨l, hl, hc.1⟩
+  simp [adaptLiteral, hm]
 
 end Jap.Adapt
